@@ -392,6 +392,9 @@ func GenGffFile(t *rapid.T, maxItems int) GffFile {
 			it.Kind = "region"
 			it.SeqName = genBlankFreeToken(t, "region-name")
 			it.Start = rapid.IntRange(0, 100000).Draw(t, "region-start")
+			if rapid.IntRange(0, 7).Draw(t, "region-negative") == 0 {
+				it.Start = rapid.IntRange(-1000, -1).Draw(t, "region-start-negative")
+			}
 			it.End = it.Start + rapid.IntRange(1, 100000).Draw(t, "region-len")
 		case 1:
 			it.Kind = "type"
@@ -416,7 +419,11 @@ func GenGffFile(t *rapid.T, maxItems int) GffFile {
 			it.SeqName = genFieldText(t, "seqname")
 			it.Source = genFieldText(t, "source")
 			it.Feature = genFieldText(t, "feature")
-			switch rapid.IntRange(0, 5).Draw(t, "start-class") {
+			switch rapid.IntRange(0, 7).Draw(t, "start-class") {
+			case 6:
+				// negative zero-based starts are outside the documented GFF domain but are carried
+				// through both conversions unchanged; the round trip must still hold for them
+				it.Start = rapid.IntRange(-1000, -1).Draw(t, "start-negative")
 			case 0:
 				it.Start = 0
 			case 1:
@@ -526,9 +533,9 @@ func (f GffFile) CheckText(data []byte) error {
 	for _, it := range f.Items {
 		switch it.Kind {
 		case "feature":
-			want = append(want, fmt.Sprintf("F\t%d\t%d", it.Start+1, it.End))
+			want = append(want, fmt.Sprintf("F\t%d\t%d", oneBased(it.Start), it.End))
 		case "region":
-			want = append(want, fmt.Sprintf("R\t%d\t%d", it.Start+1, it.End))
+			want = append(want, fmt.Sprintf("R\t%d\t%d", oneBased(it.Start), it.End))
 		}
 	}
 	var got []string
@@ -566,6 +573,16 @@ func (f GffFile) CheckText(data []byte) error {
 	return nil
 }
 
+// oneBased is the 1-based inclusive start of a zero-based start; negative
+// positions (outside the documented domain) are carried unchanged by both
+// conversion functions.
+func oneBased(start int) int {
+	if start >= 0 {
+		return start + 1
+	}
+	return start
+}
+
 // Text renders the file independently of the library writer.
 func (f GffFile) Text(eol string, finalEOL bool) []byte {
 	var lines []string
@@ -583,7 +600,7 @@ func (f GffFile) Text(eol string, finalEOL bool) []byte {
 			if it.Frame >= 0 {
 				frame = strconv.Itoa(int(it.Frame))
 			}
-			cols := []string{it.SeqName, it.Source, it.Feature, strconv.Itoa(it.Start + 1), strconv.Itoa(it.End), score, seq.Strand(it.Strand).String(), frame}
+			cols := []string{it.SeqName, it.Source, it.Feature, strconv.Itoa(oneBased(it.Start)), strconv.Itoa(it.End), score, seq.Strand(it.Strand).String(), frame}
 			var at []string
 			for _, a := range it.Attrs {
 				at = append(at, a.Tag+" "+a.Value)
@@ -597,7 +614,7 @@ func (f GffFile) Text(eol string, finalEOL bool) []byte {
 			}
 			lines = append(lines, strings.Join(cols, "\t"))
 		case "region":
-			lines = append(lines, fmt.Sprintf("##sequence-region %s %d %d", it.SeqName, it.Start+1, it.End))
+			lines = append(lines, fmt.Sprintf("##sequence-region %s %d %d", it.SeqName, oneBased(it.Start), it.End))
 		case "type":
 			if it.SeqName != "" {
 				lines = append(lines, "##Type "+it.Mol+" "+it.SeqName)
